@@ -396,6 +396,41 @@ func TestVerifC11Child(t *testing.T) {
 			}
 			return ""
 		})
+		// the peer goes away while its handshake waits to register (it is held at that point): what gets registered, if anything,
+		// is taken out again - the view ends up empty and the key can connect again
+		vRegScenario(r, "peer-leaves-while-its-registration-waits", []int{0, 1}, func(w *vRegWorld) string {
+			verifrt.Hold(vLRegRLock, 1)
+			cch := make(chan *websocket.Conn, 1)
+			go func() {
+				c, err := w.dial(0)
+				if err != nil {
+					c = nil
+				}
+				cch <- c
+			}()
+			held := vWaitHeld(vLRegRLock, 1)
+			var c *websocket.Conn
+			select {
+			case c = <-cch:
+			case <-time.After(3 * time.Second):
+			}
+			if c != nil {
+				c.Close()
+			}
+			time.Sleep(150 * time.Millisecond)
+			verifrt.Release(vLRegRLock)
+			if !held || c == nil {
+				return "gate-script-infeasible/registration-not-reached"
+			}
+			if !vWaitUntil(3*time.Second, func() bool { return w.ls.S.OpenConnections() == 0 && !w.listed(0) }) {
+				return fmt.Sprintf("session-of-a-departed-peer-stays-registered/open=%d", w.ls.S.OpenConnections())
+			}
+			again, err := w.dial(0)
+			if err != nil || vProbeWait(again, 3*time.Second) != "served" {
+				return "key-of-a-departed-peer-cannot-connect-again"
+			}
+			return ""
+		})
 		// the same, in lockstep at every synchronisation point of the handshake and of the connection manager, whatever
 		// they are: of several handshakes of one key each has done a step before any does the next, so a check and the
 		// registration it guards are interleaved unless they are one critical section
